@@ -190,11 +190,24 @@ def run(chk, w):
         for n in names[1:]:
             if ladders[n] == ref:
                 chk.ok("C07-SIB", len(ref), {"agree": [names[0], n], "intervals": len(ref)})
+                continue
+            # the arms may be cut differently (merged intervals, hoisted common stores): compare what each code value is converted to
+            pa, pb = _pointwise(ref), _pointwise(ladders[n])
+            diff = []
+            for v in range(256):
+                fa, fb = pa[v], pb[v]
+                for fld in sorted(set(fa) | set(fb)):
+                    xa, xb = fa.get(fld), fb.get(fld)
+                    if xa == "ambiguous" or xb == "ambiguous" or xa == xb:
+                        continue
+                    diff.append((v, fld, xa, xb))
+            if not diff:
+                chk.ok("C07-SIB", len(ref), {"agree": [names[0], n], "compared": "value by value over 0..255"})
             else:
-                diff = sorted(set(ref) ^ set(ladders[n]))[:4]
                 f = P.functions[n]
                 chk.violation("C07-SIB", n, names[0], "%s:%d" % (f.relfile, f.line),
-                              "the current-code conversion in %s differs from the one in %s: %s" % (n, names[0], diff))
+                              "the current-code conversion in %s differs from the one in %s: code %d sets %s to %s there and to %s here (%d differing code/field pairs)" % (
+                                  n, names[0], diff[0][0], diff[0][1], diff[0][2], diff[0][3], len(diff)))
     elif len(names) == 1:
         chk.ok("C07-SIB", 1, {"single_copy": names[0], "intervals": len(ladders[names[0]])})
     else:
@@ -485,6 +498,28 @@ def _ladder(P, f, field):
     return tuple(sorted(out, key=str))
 
 
+def _pointwise(ladder):
+    """per code value 0..255: field -> value the ladder stores (affine arms evaluated); 'ambiguous' when two arms covering the value disagree"""
+    out = []
+    for v in range(256):
+        d = {}
+        for (lo, hi, fld, kind, par) in ladder:
+            if not (lo <= v <= hi):
+                continue
+            if kind == "const":
+                val = par
+            elif kind == "affine":
+                val = par[0] * (v + par[1])
+            else:
+                val = "?"
+            if fld in d and d[fld] != val:
+                d[fld] = "ambiguous"
+            elif fld not in d:
+                d[fld] = val
+        out.append(d)
+    return out
+
+
 def _affine(f, o, depth=0):
     """(multiplier, offset) such that value = multiplier * (subject + offset), subject an opaque byte load"""
     if depth > 8:
@@ -512,10 +547,35 @@ def _affine(f, o, depth=0):
     return None
 
 
+_SUBJ = {}
+
+
+def _ladder_subject(f):
+    """the byte the function's conversion ladder is about: the byte-typed value that is compared with constants most often (a selector such as
+    `key == 0` in front of the ladder is compared once or twice, the converted value in every arm)"""
+    if f.name in _SUBJ:
+        return _SUBJ[f.name]
+    cnt = {}
+    for cnd in f.all_insts():
+        if cnd.op != "icmp" or rules.const_of(f, cnd["b"]) is None or cnd["a"].get("k") != "inst":
+            continue
+        a = f.resolve(rules.strip_casts(f, cnd["a"]))
+        if a is None or a.op != "load" or a["ty"] != "i8":
+            continue
+        pa = f.resolve(a["ptr"]) if a["ptr"].get("k") == "inst" else None
+        if pa is not None and pa.op == "alloca" and pa.get("var") in ("i", "j"):
+            continue
+        key = rules.expr_key(f, cnd["a"], copyprop=True)
+        cnt[key] = cnt.get(key, 0) + 1
+    best = max(cnt.items(), key=lambda kv: kv[1])[0] if cnt else None
+    _SUBJ[f.name] = best
+    return best
+
+
 def _subject_interval(P, f, inst):
     """interval of the compared byte on the branch containing inst, from the dominating comparisons 'subject <pred> constant' (all over one subject)"""
     lo, hi = 0, 255
-    subj = None
+    subj = _ladder_subject(f)
     n = 0
     for (gd, truth) in rules.branch_conditions(f, inst):
         cnd = f.resolve(gd["cond"])
